@@ -227,7 +227,15 @@ def gen_table(rng, k):
         else:
             vals = [rng.choice(INTS_FIXED) if rng.random() < 0.4 else rng.randint(-10 ** 6, 10 ** 6) for _ in range(n_row)]
         cols.append({"name": cname, "unit": unit, "kind": kind, "values": vals})
-    return {"name": name, "destinations": sorted(dests), "transposed": transposed, "columns": cols}
+    spec = {"name": name, "destinations": sorted(dests), "transposed": transposed, "columns": cols}
+    if n_col >= 2 and rng.random() < 0.3:
+        # edit-then-write history: the table is built with its columns in another order, consulted once, and its
+        # backing frame is then re-arranged in place to the order of `columns` before it is written
+        order = list(range(n_col))
+        while order == list(range(n_col)):
+            rng.shuffle(order)
+        spec["built_order"] = order
+    return spec
 
 
 def gen_sheets(rng):
@@ -283,7 +291,9 @@ def build_table(spec):
     import pandas as pd
     from pdtable import Table
     data = {}
-    for c in spec["columns"]:
+    final = spec["columns"]
+    built = [final[i] for i in spec["built_order"]] if spec.get("built_order") else final
+    for c in built:
         k, v = c["kind"], c["values"]
         if k == "text":
             data[c["name"]] = pd.Series(v, dtype=object)
@@ -301,8 +311,13 @@ def build_table(spec):
             t = Table(name=spec["name"], destinations=set(spec["destinations"]))
             t.metadata.transposed = spec["transposed"]
         else:
-            t = Table(pd.DataFrame(data), name=spec["name"], units=[c["unit"] for c in spec["columns"]],
+            t = Table(pd.DataFrame(data), name=spec["name"], units=[c["unit"] for c in built],
                       destinations=set(spec["destinations"]), transposed=spec["transposed"])
+            if spec.get("built_order"):
+                # consult the table once, then re-arrange the backing frame in place (plain pandas) to the final order
+                assert t.units == [c["unit"] for c in built] and t.column_names == [c["name"] for c in built]
+                for c in reversed(final):
+                    t.df.insert(0, c["name"], t.df.pop(c["name"]))
     return t
 
 
@@ -874,7 +889,8 @@ def judge(what, case, impl, ans, out):
 def run(tier, seed, model_ok, translator, search=False):
     out = Outcome()
     out.rule = ("random sheet maps (1-3 sheets, 0-3 Excel-well-formed tables each: text/onoff/datetime/float/int "
-                "columns, 0-4 columns, 0-5 rows, both orientations, NaN/NaT, unicode) x styles {False, True, 4 custom "
+                "columns, 0-4 columns, 0-5 rows, both orientations, NaN/NaT, unicode; 30% of the tables with >= 2 columns are "
+                "built in another column order, consulted once and re-arranged in place on t.df before writing) x styles {False, True, 4 custom "
                 "dicts} x sep_lines 1..3 x {path, BytesIO} x sheet_name_pattern; real write_excel -> read_excel; "
                 "non-trivial = at least one table with a column; distinct by sheet map and settings")
     rng = make_rng(seed, "C09")
@@ -906,6 +922,8 @@ def run(tier, seed, model_ok, translator, search=False):
             out.count("pattern:" + ("none" if case["pattern"] is None else "regex"))
             out.count("sheets:%d" % len(sheets))
             for t in tabs:
+                if t.get("built_order"):
+                    out.count("history: built, consulted, columns re-arranged in place, then written")
                 out.count("orientation:" + ("transposed" if t["transposed"] else "rowwise"))
                 out.count("shape:cols=%d" % len(t["columns"]))
                 out.count("shape:rows=%d" % (len(t["columns"][0]["values"]) if t["columns"] else 0))
@@ -1007,7 +1025,9 @@ def fixed_cases(seed):
                          col("d", "datetime", "datetime", ["2020-01-02T03:04:05", None]), col("e", "int", "kg", [3, -4])])
     t = dict(r, name="t", transposed=True)
     t1 = tab("t1", True, [col("only", "num", "mm", ["2.5"])])
-    shapes = [[z], [zt], [r0], [t0], [r], [t], [z, z], [zt, z], [z, zt], [r, z], [z, r], [t, z, t0, r0], [r0, t0, zt, r, t1],
+    rh = dict(r, name="rh", built_order=[4, 0, 1, 2, 3])      # built in another column order, re-arranged in place
+    th = dict(t, name="th", built_order=[1, 0, 3, 2, 4])
+    shapes = [[rh], [th, rh], [z], [zt], [r0], [t0], [r], [t], [z, z], [zt, z], [z, zt], [r, z], [z, r], [t, z, t0, r0], [r0, t0, zt, r, t1],
               [t1], [t1, z], []]
     cases = []
     for i, tabs in enumerate(shapes):
